@@ -18,6 +18,7 @@ mod c10;
 mod c11;
 mod c12;
 mod c13;
+mod c14;
 mod c17;
 mod c18;
 
@@ -118,6 +119,7 @@ fn gen(prop: &str, tier: &str, seed: u64) -> Vec<String> {
         "C11" => c11::gen(tier, &mut r),
         "C12" => c12::gen(tier, &mut r),
         "C13" => c13::gen(tier, &mut r),
+        "C14" => c14::gen(tier, &mut r),
         "C17" => c17::gen(tier, &mut r),
         "C18" => c18::gen(tier, &mut r),
         _ => panic!("unknown property {prop}"),
@@ -133,6 +135,7 @@ fn exec(prop: &str, case: &str) -> Exec {
         "C11" => c11::exec(case),
         "C12" => c12::exec(case),
         "C13" => c13::exec(case),
+        "C14" => c14::exec(case),
         "C17" => c17::exec(case),
         "C18" => c18::exec(case),
         _ => panic!("unknown property {prop}"),
